@@ -160,6 +160,14 @@ class ProtocolModel:
             p.func("waits", "create_wait_strategy").fq: self._hook_strategy,
             p.func("state", "ExecutionState.track_replay").fq: self._hook_track,
         }
+        rio = self.state_cls.methods.get("raise_if_orphaned")
+        if rio is not None:
+            def _hook_orphancheck(it, fn, sv, a, k, n):
+                # read-only orphan query (the counterpart of the guard inside create_checkpoint)
+                it.emit("ORPHANCHECK", n, id=(a[0].key() if a else k.get("operation_id", NONE).key()),
+                        parent=(a[1].key() if len(a) > 1 else k.get("parent_id", NONE).key()))
+                return NONE
+            hooks[rio.fq] = _hook_orphancheck
         if extra_hooks:
             hooks.update(extra_hooks)
         return Config(
